@@ -281,7 +281,7 @@ def gen_limit_scenario(rng, tier, style=None):
     Q = rng.choice([1, 1, 2, 3, 7, 100])
     if rng.random() < 0.08:
         Q = rng.choice([2 ** 63 - 1, 2 ** 63, 2 ** 64 - 1, 2 ** 32 + 1])     # the full uint64 range of Rate.Quantity
-    I = rng.choice([1000, 10 ** 6, 10 ** 9])
+    I = rng.choice([1000, 10 ** 6, 10 ** 9, 1000, 10 ** 6, 10 ** 9, 1, 3, 10])      # down to a single nanosecond
     icap = rng.choice([0, 0, 1, 3, min(Q, 8), min(2 * Q, 16)])
     huge_ok = style is None
     style = style or rng.choice(["upfront", "upfront", "trickle", "stall-burst", "random", "slowcons", "stall-upfront"])
